@@ -126,6 +126,17 @@ Proof.
 Qed.
 Print Assumptions C16_generated_program_linear.
 
+(* ... also for translation units that mix file-scope object declarations and function definitions *)
+Theorem C16_generated_unit_linear : forall (P: Type) rp (u: list FuncTrip.edecl), Forall FuncTrip.ewf u ->
+  forall items le eof file, Spell P le (FuncTrip.unit_toks rp u) -> UpR P [[]] items le -> List.length items = List.length le ->
+  exists f0 N s', (forall fu, (f0 <= fu)%nat -> parse_tokens P fu (init_pstate P items eof file) = Ok (N, s')) /\
+    idx P s' = List.length le /\ (N.to_nat (ticks P s') <= 3 * List.length le)%nat.
+Proof.
+  intros P rp u Hu items le eof file HS HU Hl. destruct (FuncTrip.parse_of_generated_unit P rp u Hu items le eof file HS HU Hl) as [f0 [N [s' [H [_ [Hi Ht]]]]]].
+  exists f0, N, s'. split; [exact H|split; [exact Hi|exact Ht]].
+Qed.
+Print Assumptions C16_generated_unit_linear.
+
 (* the hypotheses of the two theorems are satisfiable and the accounting is the model's own: on `( a + b ) * c ;`
    p_expression consumes the 7 tokens with 9 calls of next() (the parenthesis is read three times) *)
 Theorem C16_linear_example :
